@@ -516,7 +516,22 @@ def classify_failure(case_kind, floats, svars, tokens, impl):
 def run(tier, seed):
     R = C.Report(CID, tier, seed)
     quick = tier == 'quick'
+    # regenerate coq/Gen/MMDecode.v from the CURRENT converter.py / translate.py (fail closed)
+    tr_err = None
+    try:
+        import sys
+        sys.path.insert(0, os.path.join(C.VERIF, 'translators'))
+        import mmdecode
+        C.write_if_changed(os.path.join(C.COQ, 'Gen', 'MMDecode.v'), mmdecode.generate(C.REPO))
+    except SystemExit as e:
+        tr_err = str(e)
+    except Exception as e:  # noqa: BLE001
+        tr_err = f'mmdecode: {e!r}'
     P = R.proof_stage()
+    if tr_err:
+        P['ok'] = False
+        P['log'] = 'translator failed closed: ' + tr_err
+        P['discharged'] = 0
     proof_broken = not P['ok']
     if proof_broken:
         R.notes.append('proof stage failed: ' + P['log'][-1500:])
@@ -802,6 +817,11 @@ def run(tier, seed):
                           'numbers, the malformation kind and acceptance of raw strings, and the number of mandatory hypotheses')
     R.coverage['hash_seeds'] = seeds
     return R.finish(level='proof', trusted_base=C.TRUSTED_COMMON + [
+        'translators/mmdecode.py (Python-ast -> Gallina, statement by statement, fail closed) with its fixed vocabulary coq/MM15/GenPrelude.v: '
+        'lsdigit/msdigit, convert_to_number, parse_lemmas, split_proof, the tail of _import_proof and the head of the replay loop of exec_proof are '
+        'TRANSLATED from the current source on every run (coq/Gen/MMDecode.v) and proved equal to the model (MM15/GenMMDecodeAgree.v); str.isspace is '
+        'the is_space of the model (differential), the set statement.get_metavariables() and the database statements are inputs, the label steps of '
+        'exec_proof are abstracted to the term they leave on top',
         'lark LALR parser/lexer is not modelled: the token-level model (MM15/Codec.v tokenize/proof_field) is validated against it by correspondence only; comments inside proofs are not generated',
         'MM15 model is hand-written; statement.get_metavariables() is taken as the set of variables of the statement (its iteration order is a parameter of the model)',
         'classify (what a number refers to) is the Appendix B reading, also used by translate.exec_proof; its use there is C16 territory',
